@@ -282,31 +282,44 @@ def paired_options(mainf):
     return out
 
 
+def _preorder(node):
+    """nodes in the order they are written (depth first, fields in order; nested defs left out)"""
+    yield node
+    for ch in ast.iter_child_nodes(node):
+        if isinstance(ch, (ast.FunctionDef, ast.AsyncFunctionDef, ast.ClassDef, ast.Lambda)):
+            continue
+        yield from _preorder(ch)
+
+
 def reader_load_class_order(mainf):
-    """classes appended to the reader's `loads` list, in source order"""
+    """classes appended to the reader's `loads` list, in the order the statements are written (mainf may be the
+    flattened main: statements spelled out from one loop over a table share a line, so positions, not line
+    numbers, give the order)"""
     out = []
+    nodes = list(_preorder(mainf.node))
+    pos = {id(n): i for i, n in enumerate(nodes)}
     # loads = [Impedance_Load(l) for l in args.load]
-    for n in sorted([x for x in walk_no_nested(mainf.node) if isinstance(x, ast.Assign)], key=lambda c: c.lineno):
-        if len(n.targets) == 1 and norm(n.targets[0]) == 'loads' and isinstance(n.value, (ast.ListComp, ast.List)):
+    for n in nodes:
+        if isinstance(n, ast.Assign) and len(n.targets) == 1 and norm(n.targets[0]) == 'loads' and \
+           isinstance(n.value, (ast.ListComp, ast.List)):
             elts = [n.value.elt] if isinstance(n.value, ast.ListComp) else n.value.elts
             for e_ in elts:
                 if isinstance(e_, ast.Call) and isinstance(e_.func, ast.Name) and e_.func.id.endswith('_Load'):
-                    out.append((n.lineno, e_.func.id))
-    out = [c for l, c in sorted(out)]
-    for n in sorted([x for x in walk_no_nested(mainf.node) if isinstance(x, ast.Call)],
-                    key=lambda c: (c.lineno, c.col_offset)):
-        if isinstance(n.func, ast.Attribute) and n.func.attr == 'append' and norm(n.func.value) == 'loads' \
-           and n.args:
+                    out.append(e_.func.id)
+    for n in nodes:
+        if isinstance(n, ast.Call) and isinstance(n.func, ast.Attribute) and n.func.attr == 'append' and \
+           norm(n.func.value) == 'loads' and n.args:
             a = n.args[0]
             if isinstance(a, ast.Call) and isinstance(a.func, ast.Name):
                 out.append(a.func.id)
             elif isinstance(a, ast.Name):
                 # l = Laplace_Load(...)
-                for s in walk_no_nested(mainf.node):
+                cand = None
+                for s in nodes:
                     if isinstance(s, ast.Assign) and isinstance(s.targets[0], ast.Name) and \
                        s.targets[0].id == a.id and isinstance(s.value, ast.Call) and \
                        isinstance(s.value.func, ast.Name) and s.value.func.id.endswith('_Load') and \
-                       s.lineno < n.lineno:
+                       pos[id(s)] < pos[id(n)]:
                         cand = s.value.func.id
-                out.append(cand)
+                out.append(cand or a.id)
     return out
